@@ -69,6 +69,24 @@ CLAIMED = {
              "Axioms: propext, Classical.choice, Quot.sound.",
         technique="Lean 4 invariant proof over unbounded call/answer histories + differential correspondence on the real btls code",
         ref="DESIGN.md §5 C09"),
+    "C18": dict(
+        text="Lean 4 proofs on a model of the TLS context cache ctx_store.c. (1) The byte sequence fed to SHA-256 as cache key is "
+             "uniquely decodable: it determines item types, by-value data, file names and the stat identity of every file and of a "
+             "symbolic link's target (C18_key_unambiguous, via a proved left-inverse decoder); F18a_old_key_ambiguous exhibits the "
+             "collision of the encoding used before the repair F-18a. (2) For EVERY sequence of file-system snapshots a call may observe "
+             "- files replaced between any two accesses - the context returned is cached under the identity observed in that call and "
+             "holds exactly the material this identity designates (get_spec / C18_context_holds_designated_material: the "
+             "hash-load-hash retry loop, induction over the fuel and the item list); one context, one identity (C18_no_mixing). "
+             "(3) For every history of gets and puts by sockets, an entry's count equals the number of holders, a context is cached iff "
+             "held, released exactly by its last holder's put and never while held (C18_released_with_last_user, run_inv). Tie: the "
+             "real ctx_store.c on real OpenSSL and real files (rename-over, symlink flips, changes during loading, by-value/by-file "
+             "mixes, malformed and mismatching material) vs the compiled model line by line, including what is inside each SSL_CTX.",
+        note="Relative to K-stat (a replaced file has a new identity, no ABA during a call), K-sha256, and the fixture table saying which "
+             "PEM material OpenSSL accepts. How xcm_tp_btls.c chooses the items (attributes first, else XCM_TLS_CERT directory and "
+             "namespace naming) and that established connections keep their SSL_CTX is exercised on the real library by sys_tls "
+             "when named in the check's rule text, not proved. Axioms: propext, Classical.choice, Quot.sound.",
+        technique="Lean 4 proofs (unique decodability, invariant over snapshot sequences, reference counting) + differential correspondence on the real ctx_store.c",
+        ref="DESIGN.md §5 C18"),
     "C07": dict(
         text="Lean 4 proofs on the framing model for an ARBITRARY arrived byte stream in arbitrary segmentation: the "
              "receive buffer never exceeds one maximum-size frame and no mbuf.h assertion can fire (C07_bounded_buffer), "
